@@ -99,15 +99,15 @@ def stepReport [PySum α] (eps : α) (genKeys : List String) (o : StepObs α) : 
           reps.all (fun r => gcWithin eps r.1 r.2.1 && csWithin eps r.1 o.stations) }
 
 /-- the `for step_i in range(n_intervals)` loop with its error latch and `break` -/
-def runLoop [PySum α] (eps : α) (genKeys : List String) : Nat → List (StepObs α) → List (StepOut α)
+def simLoop [PySum α] (eps : α) (genKeys : List String) : Nat → List (StepObs α) → List (StepOut α)
   | 0, _ => []
   | _ + 1, [] => []                      -- no observation: cannot happen for a recorded run
   | n + 1, o :: rest =>
     let s := stepReport eps genKeys o
-    if s.ok then s :: runLoop eps genKeys n rest else [s]
+    if s.ok then s :: simLoop eps genKeys n rest else [s]
 
 def run [PySum α] (eps : α) (genKeys : List String) (n : Nat) (obs : List (StepObs α)) : RunOut α :=
-  let steps := runLoop eps genKeys n obs
+  let steps := simLoop eps genKeys n obs
   { stepI := steps.length
     aborted := steps.any (fun s => !s.ok)
     steps := steps }
